@@ -75,8 +75,25 @@ T5 = [
  ("C34","m1","agent/demo_m1_test.go",{"C34":"usage_lost"},"caught","","C34-m3"),
  ("C35","m2","route/demo_c35m2_test.go",{"C35":"data_race","C23":"accepted_event_not_accounted_once"},"missed, then caught after strengthening","clients now also send zstd-compressed bodies, some of which do not decode; some requests carry an environment key whose lookup answers only after a while, so that a handler is in progress (holding its body buffer) while other requests come and go - in the race runs and, with a functional oracle, in C23","C35-m3"),
 ]
+T6 = [
+ # wave 6 (/tmp/mutout6), same prompts as wave 5. Not stored (repeats): C01 m1 (= C02-m3), C01 m2 (= C01-m2), C03 m2 (= C02-m1),
+ # C07 m1 (= C07-m3), C12 m1 (= C12-m2), C13 m1 (= C13-m1). Not stored (outside the statements): C04 m1 - two decisions for one
+ # trace when relief switches on while the trace is buffered (the case C01 excludes); which of the two recorded rates a later span
+ # must carry is not defined by C04.
+ ("C03","m1","collect/demo_m1_test.go",{"C03":"tick_decides_wrong_number"},"missed, then caught after strengthening","workers are stalled in gaps of the traffic: one send tick fires meanwhile, waits in the ticker's channel and is judged when the worker handles it (a record made at that moment from the tracer's sendExpiredTracesInCache span); memory readings wait while a worker is stalled","C03-m3"),
+ ("C04","m2","collect/demo_m2_test.go",{"C04":"sample_rate_product","C31":"kept_decision_wrong_rate_or_reason"},"caught","","C04-m3"),
+ ("C07","m2","collect/demo_m2_test.go",{"C07":"ejected_kept_trace_not_forwarded","C02":"kept_span_not_forwarded"},"missed, then caught after strengthening","new hook aea4114 (capacity of the collector's outgoing queue replaceable in simulation builds) and plans in which a queue of a few traces is exactly full behind a stalled sender when the memory limit is exceeded","C07-m4"),
+ ("C12","m2","collect/demo_reload_resize_test.go",{"C12":"identical_definitions_not_shared"},"missed, then caught after strengthening","reloads during which the workers' sent-cache Resize returns an error (zero capacity)","C12-m4"),
+ ("C13","m2","sample/demo_c13m2_test.go",{"C13":"throughput_goal"},"missed, then caught after strengthening","the Peers double can make GetPeers fail for a while (samplers created or re-created meanwhile)","C13-m3"),
+ ("C15","m1","collect/demo_m1_test.go",{"C15":"cluster_level_not_rms_of_recent_reports"},"missed, then caught after strengthening","new schedule: the clock given to StressRelief runs a hook in the recalculation's first clock read that delivers a peer report (on the subscriber's goroutine) right there","C15-m3"),
+ ("C15","m2","collect/demo_m2_test.go",{"C15":"cluster_level_not_rms_of_recent_reports"},"missed, then caught after strengthening","new fault: stress messages that cannot be parsed, naming a peer","C15-m4"),
+ ("C16","m1","route/demo_c16_m1_test.go",{"C16":"kept_stressed_span_not_delivered_exactly_once"},"missed, then caught after strengthening","new schedule: relief ends (mode reload + Recalc) from inside the tracer call at the start of the collector's stress path, i.e. after the router has read the stress state and while the span is still inside processEvent","C16-m5"),
+ ("C16","m2","collect/cache/demo_c16_m2_test.go",{"C31":"dropped_decision_not_answered_dropped"},"caught (by C31; C16's runs do not fill the drop filter)","","C16-m6"),
+]
 if os.environ.get("WAVE") == "3":
     T = T3
+if os.environ.get("WAVE") == "6":
+    T = T6
 if os.environ.get("WAVE") == "5":
     T = T5
 if os.environ.get("WAVE") == "4":
